@@ -20,7 +20,7 @@ BUILD = f"{VERIF}/.build"
 HARNESS = f"{BUILD}/target/release/verif-harness"
 MODEL = f"{VERIF}/lean/.lake/build/bin/foyer_model"
 ALLOWED_AXIOMS = {"propext", "Classical.choice", "Quot.sound"}
-FORBIDDEN = r"sorry|admit|^axiom |native_decide|bv_decide|implemented_by|unsafe |maxHeartbeats 0"
+FORBIDDEN = r"\bsorry\b|\badmit\b|^\s*axiom |native_decide|bv_decide|implemented_by|\bunsafe |maxHeartbeats 0"
 
 ENV = dict(os.environ, CARGO_NET_OFFLINE="true")
 
@@ -147,6 +147,9 @@ def classify(prop, t, m):
     if t["verdict"] == "REJECT":
         field = t.get("field", "?")
         owners = FIELD_PROPS.get(PROPS[prop]["domain"], {}).get(field)
+        if field in PROPS[prop].get("reject_is_fail_fields", []):
+            return ("fails", "differs_from_documented_algorithm:" + field, int(t.get("step", 0)),
+                    f"model={t.get('model')} impl={t.get('impl')}")
         if owners is None or prop in owners:
             # a monitor failure of another property *before* this step explains the divergence
             if m["verdict"] == "FAILS" and int(m.get("step", 0)) <= int(t.get("step", 0)) and m.get("prop") not in relevant_mon:
